@@ -22,6 +22,7 @@ import XotModel.Driver.Lex
 import XotModel.Driver.SerTokens
 import XotModel.Driver.Fprefix
 import XotModel.Driver.Fanyorder
+import XotModel.Driver.Fidx
 
 open XotModel.Driver
 
@@ -46,12 +47,21 @@ def dispatch (st : DState) (line : String) : DState × String :=
 structure MState where
   d : DState := {}
   forest : FState := {}
+  /-- the xml:id index of the forest session (`Driver/Fidx`) -/
+  idx : IdIndex := []
 
 def dispatchAll (st : MState) (line : String) : MState × String :=
   match words line with
+  | ["forest", "reset"] => ({ st with forest := {}, idx := [] }, "ok")
+  | "forest" :: "parse" :: _ | "forest" :: "parse_fragment" :: _ | "forest" :: "xml_id" :: _ =>
+    (match handleFidx st.forest st.idx ((words line).drop 1) with
+     | some (fs, idx, resp) => ({ st with forest := fs, idx := idx }, resp)
+     | none => (st, "bad-request"))
   | "forest" :: "spec" :: rest => (st, (handleFspec st.forest ("spec" :: rest)).getD "bad-request")
   | "forest" :: "specx" :: rest => (st, (handleFspec st.forest ("specx" :: rest)).getD "bad-request")
   | "forest" :: "prog" :: rest => (st, (handleFanyorder st.forest rest).getD "bad-request")
+  | "forest" :: "specp" :: rest => (st, (handleFspec st.forest ("specp" :: rest)).getD "bad-request")
+  | "forest" :: "specpx" :: rest => (st, (handleFspec st.forest ("specpx" :: rest)).getD "bad-request")
   | "forest" :: "fixed" :: rest => (match handleFfixed st.forest rest with | some (fs, resp) => ({ st with forest := fs }, resp) | none => (st, "bad-request"))
   | "forest" :: rest =>
     (match handleFprefix st.d.env st.forest rest with
